@@ -891,8 +891,19 @@ func (e *Engine) frameCheck(st *State, fr *Frame, ctx *EvalCtx, ct *Contract, pa
 	for _, k := range mt.keys {
 		allowedKey[k] = true
 	}
+	// designators that name single objects (`x.f`, `*p`): every OTHER pre-existing object of that heap kind must be unchanged
+	partial := map[string][]string{}
+	for _, fo := range mt.fobjs {
+		partial[fo.key] = append(partial[fo.key], fo.base)
+	}
 	for _, p := range mt.cells {
 		pt := p.Typ.Underlying().(*types.Pointer)
+		if objs := e.cellObjs(st, p, pt.Elem()); objs != nil {
+			for _, fo := range objs {
+				partial[fo.key] = append(partial[fo.key], fo.base)
+			}
+			continue
+		}
 		ks := map[string]bool{}
 		if p.Addr != nil {
 			ks[p.Addr.Key] = true
@@ -927,7 +938,11 @@ func (e *Engine) frameCheck(st *State, fr *Frame, ctx *EvalCtx, ct *Contract, pa
 			goal = eq(now, was)
 		} else {
 			r := freshName("q_r")
-			goal = "(forall ((" + r + " Int)) (=> (>= " + r + " 0) (= (select " + now + " " + r + ") (select " + was + " " + r + "))))"
+			guard := "(>= " + r + " 0)"
+			for _, b := range partial[k] {
+				guard = and(guard, not(eq(r, b)))
+			}
+			goal = "(forall ((" + r + " Int)) (=> " + guard + " (= (select " + now + " " + r + ") (select " + was + " " + r + "))))"
 		}
 		o := e.addObligation(st, fr, "frame", []string{"frame"}, "heap "+k+" unchanged for pre-existing objects (not in modifies)", fr.fn.String(), goal, nil)
 		o.Path = pathID
@@ -969,6 +984,9 @@ func (e *Engine) frameAllowed(fr *Frame, st *State, c *Contract, ord int) (map[s
 			all = mt.all
 			for _, k := range mt.keys {
 				allowed[k] = true
+			}
+			for _, fo := range mt.fobjs {
+				allowed[fo.key] = true
 			}
 			for _, p := range mt.cells {
 				ks := map[string]bool{}
@@ -1018,6 +1036,9 @@ func (e *Engine) loopFrame(fr *Frame, st *State, c *Contract, ord int, pre map[s
 			all = mt.all
 			for _, k := range mt.keys {
 				allowed[k] = true
+			}
+			for _, fo := range mt.fobjs {
+				allowed[fo.key] = true
 			}
 			for _, p := range mt.cells {
 				ks := map[string]bool{}
